@@ -72,14 +72,20 @@ var msgs = []*descriptorpb.DescriptorProto{
 		dyn.F("book", 3, dyn.Message, dyn.Of(".c7.Book")),
 		dyn.F("other", 4, dyn.String),
 		dyn.F("sub", 5, dyn.Message, dyn.Of(".c7.Inner")),
-		dyn.F("count", 6, dyn.Uint32)),
+		dyn.F("count", 6, dyn.Uint32),
+		// well-known types are legal path variables too (decoded from their JSON text form)
+		dyn.F("update_mask", 7, dyn.Message, dyn.Of(".google.protobuf.FieldMask")),
+		dyn.F("ttl", 8, dyn.Message, dyn.Of(".google.protobuf.Duration")),
+		dyn.F("limit", 9, dyn.Message, dyn.Of(".google.protobuf.Int32Value")),
+		dyn.F("label", 10, dyn.Message, dyn.Of(".google.protobuf.StringValue"))),
 }
 
 var fieldKinds = map[string]string{
 	"name": "s", "shelf_id": "i", "book.display_name": "s", "book.pages": "i",
 	"book.inner.id": "s", "book.inner.big_num": "i", "sub.id": "s", "sub.big_num": "i", "count": "u", "book.title": "s",
+	"update_mask": "mask", "ttl": "dur", "limit": "wi", "label": "ws",
 }
-var fieldNames = []string{"name", "shelf_id", "book.display_name", "book.pages", "book.inner.id", "book.inner.big_num", "sub.id", "sub.big_num", "count", "book.title"}
+var fieldNames = []string{"name", "shelf_id", "book.display_name", "book.pages", "book.inner.id", "book.inner.big_num", "sub.id", "sub.big_num", "count", "book.title", "update_mask", "ttl", "limit", "label"}
 
 func (c Case) template() string {
 	var sb strings.Builder
@@ -156,6 +162,12 @@ func setText(m *dynamicpb.Message, field, text string) error {
 	v, _ := ref.GetPath(vals[0].ProtoReflect(), fds)
 	if fds[len(fds)-1].Kind() == protoreflect.StringKind {
 		v = protoreflect.ValueOfString(text)
+	}
+	if fds[len(fds)-1].Message() != nil && fds[len(fds)-1].Message().Name() == "StringValue" {
+		// bare text is the string itself
+		sv := dynamicpb.NewMessage(fds[len(fds)-1].Message())
+		sv.Set(sv.Descriptor().Fields().ByName("value"), protoreflect.ValueOfString(text))
+		v = protoreflect.ValueOfMessage(sv)
 	}
 	ref.SetPath(m.ProtoReflect(), fds, v)
 	return nil
@@ -310,6 +322,19 @@ func genText(t *rapid.T, kind, pattern, label string) string {
 			return fmt.Sprint(rapid.Int32().Draw(t, l))
 		case "u":
 			return fmt.Sprint(rapid.Uint32().Draw(t, l))
+		case "mask":
+			n := rapid.IntRange(1, 3).Draw(t, l+"n")
+			var ps []string
+			for i := 0; i < n; i++ {
+				ps = append(ps, rapid.SampledFrom([]string{"title", "secret", "displayName", "book.pages", "name", "a"}).Draw(t, l))
+			}
+			return strings.Join(ps, ",")
+		case "dur":
+			return rapid.SampledFrom([]string{"0s", "3s", "1.500s", "-2s", "0.000000001s", "86400s"}).Draw(t, l)
+		case "wi":
+			return fmt.Sprint(rapid.SampledFrom([]int32{0, 0, 7, -1, 2147483647}).Draw(t, l))
+		case "ws":
+			return segGen.Draw(t, l)
 		}
 		return segGen.Draw(t, l)
 	}
@@ -356,7 +381,14 @@ func genCase(t *rapid.T) Case {
 		v.V1 = genText(t, kind, pat, "v1")
 		v.V2 = genText(t, kind, pat, "v2")
 		if v.V2 == v.V1 {
-			if kind == "s" {
+			if kind == "mask" {
+				v.V2 += ",other"
+			} else if kind == "dur" {
+				v.V2 = "9s"
+				if v.V1 == "9s" {
+					v.V2 = "1s"
+				}
+			} else if kind == "s" || kind == "ws" {
 				v.V2 += "x"
 			} else if strings.HasPrefix(v.V1, "1") {
 				v.V2 = "2"
